@@ -57,6 +57,7 @@ J_parseresp(e) ==
                 ELSE IF e.fields # cl.r THEN "decoded-fields-differ-from-frame"
                 ELSE IF e.framing = "tcp" /\ e.tid # MBAPTid(e.frame) THEN "transaction-id-differs"
                 ELSE IF e.blen # -1 /\ e.blen # Len(cl.r.data) THEN "byte-length-field-differs"
+                ELSE IF e.framing = "rtu" /\ e.reenc # <<>> /\ ~CRCConsistent(e.reenc) THEN "emitted-rtu-frame-does-not-end-with-the-crc-of-its-bytes"
                 ELSE IF e.reenc # e.frame THEN "reencoding-differs-from-frame"
                 ELSE "ok"
            [] cl.kind = "oversize" ->
@@ -64,6 +65,7 @@ J_parseresp(e) ==
                 \* parser that accepts it must still yield the frame's content and re-encode it byte for byte
                 IF e.entry \notin RespEntries(e.framing, cl.r.fc) \/ e.outcome # "ok" THEN "ok"
                 ELSE IF e.fields # cl.r THEN "decoded-fields-differ-from-frame"
+                ELSE IF e.framing = "rtu" /\ e.reenc # <<>> /\ ~CRCConsistent(e.reenc) THEN "emitted-rtu-frame-does-not-end-with-the-crc-of-its-bytes"
                 ELSE IF e.reenc # e.frame THEN "reencoding-differs-from-frame"
                 ELSE "ok"
            [] cl.kind = "exception" ->
@@ -71,6 +73,8 @@ J_parseresp(e) ==
                 ELSE IF e.outcome # "err" THEN "exception-frame-returned-as-response"
                 ELSE IF e.excIs = 0 THEN "exception-frame-error-not-typed"
                 ELSE IF <<e.excUnit, e.excFc, e.excCode>> # <<cl.unit, cl.fc, cl.code>> THEN "exception-fields-differ"
+                ELSE IF e.framing = "rtu" /\ e.errType = "ErrorResponseRTU" /\ ~CRCConsistent(e.errPkt) THEN "emitted-rtu-frame-does-not-end-with-the-crc-of-its-bytes"
+                ELSE IF e.prevNow # e.prevThen THEN "exception-error-of-an-earlier-frame-changed-after-a-later-parse"
                 ELSE "ok"
            [] cl.kind = "mismatch" ->
                 IF e.outcome = "ok" THEN "byte-count-mismatch-accepted" ELSE "ok"
@@ -102,6 +106,7 @@ J_parsereq(e) ==
               ELSE IF e.reenc # (IF e.framing = "tcp" THEN e.frame
                                  ELSE IF e.framing = "rtu" THEN e.frame ELSE WithCRC(e.frame))
                    THEN "reencoding-differs-from-frame"
+              ELSE IF e.reencAfter # e.reenc THEN "decoded-request-changed-when-the-caller-reused-its-input-buffer"
               ELSE "ok"
          ELSE IF OutOfLimitReq(d.r) THEN
               (IF e.outcome = "ok" THEN "out-of-limit-request-decoded" ELSE "ok")
